@@ -846,3 +846,17 @@ print('NOT-REPRODUCED'); sys.exit(0)
 '''
 
 PROBES = PROBES + [("references that depend on class-level Parameters", CLASS_REF_REPLAY)]
+
+
+# an Event that refuses a value keeps the state it was in — in particular an Event that is switched on
+# for the duration of an update stays on when an assignment made meanwhile is refused (Event.__set__ is
+# verified for C05: what the reset does per mode, on every exit)
+_c02_base_event = contracts
+
+
+def contracts():
+    from contracts import c05 as _c05
+    extra = [_c05.event_set_contract(m) for m in ("set-reset", "set", "reset")]
+    for c in extra:
+        c.prop = "C02"
+    return _c02_base_event() + extra
